@@ -18,6 +18,9 @@ CLAIMED = {
  "C08": ("Lean 4 theorems (HT schema M5/M6+, decision kernel of the cleanup model) + exact-output correspondence of the whole pass + clingo differential oracle as failing-input search",
          "Proved (ground level, all programs of the definite-reduct class): supportedness and removal of an implied positive body atom; proved about the executable model of cleanup.py: a negated literal is never superseded by the positive atom of its predicate, only positive literals supersede, mappings are used with their recorded sign, argument positions are respected, boolean elimination is sound. Tie: the 443-line model reproduces CleanupTranslator.execute (after inline_arithmetic) token for token on ~3000 quick / ~80000 thorough cases (39% change the program). Not proved: mappings => schema side condition (validated by clingo on the real code; findings D24, D25, and the normal-form findings D3, D8, D19).",
          "Semantics is ours (published HT/Abstract-Gringo reading); the oracle trusts clingo; instance facts only over input predicates.", "§9 C08"),
+ "C16": ("Lean 4 theorems (HT schema M3/M3-converse/M3f; decision kernel of good_split / project_rule in the model) + exact-output correspondence of binding analysis and projection + clingo oracle (one-to-one, safety) as failing-input search",
+         "Proved (ground level): definitional extension is sound and complete and folding keeps stable models => a split is a conservative one-to-one extension. Proved about the model of projection.py: C16_good_split_sound (accepted split => aux body binds all its variables, rest safe given the interface, interface = globals(new) ∩ (vars(rest) ∪ globals(head)), no global variable becomes local, rest keeps a positive atom, aggregates whole), C16_split_shape (schema shape, fresh aux via C07). Tie: Binding.lean (370 lines) and Projection.lean (125 lines) reproduce the Python functions exactly on 8k quick / 480k thorough evaluations (~19% of pipeline programs split). Not proved: binding analysis = gringo safety; syntactic => ground side condition (validated by clingo).",
+         "Oracle trusts clingo; normal-form findings D3, D8, D19 are shared with C05.", "§9 C16"),
 }
 PENDING = {}
 props = [json.loads(l) for l in open(os.path.join(VERIF, "properties.jsonl"))]
